@@ -103,6 +103,7 @@ class IrProtocolBase(object):
         self._frequency_tolerance = 2
         self._saved_codes = []
         self._sequence = []
+        self._stored_codes = []
         self._parent = parent
 
         self._lead_in = self._lead_in[:]
